@@ -10,14 +10,14 @@ import (
 
 // FaultPlan configures the reporter-side faults of a run.
 type FaultPlan struct {
-	SlowPct   int      // F1: percent of reporter calls that sleep on the fake clock
-	SlowMenu  []int64  // sleep durations (ns)
-	CloseErr  bool     // F8: reporter Close returns an error
-	HasCloser bool     // reporter implements io.Closer
-	SendFail  []int    // F5: (m3/transport) indices of datagrams (per socket, 1-based) whose send fails
-	FailFrom  int      // F5: every send from this one on fails (0 = never)
-	CloseDest int      // F5: destination socket closed by the environment before this send (0 = never)
-	PanicCB   bool     // F8: prometheus error callback panics
+	SlowPct   int     // F1: percent of reporter calls that sleep on the fake clock
+	SlowMenu  []int64 // sleep durations (ns)
+	CloseErr  bool    // F8: reporter Close returns an error
+	HasCloser bool    // reporter implements io.Closer
+	SendFail  []int   // F5: (m3/transport) indices of datagrams (per socket, 1-based) whose send fails
+	FailFrom  int     // F5: every send from this one on fails (0 = never)
+	CloseDest int     // F5: destination socket closed by the environment before this send (0 = never)
+	PanicCB   bool    // F8: prometheus error callback panics
 }
 
 var errReporterClose = errors.New("harness: reporter close error")
